@@ -548,7 +548,7 @@ Proof.
     destruct (run_closing q s1 beh n1) as [[s2 e2] n2]. exact Y.
 Qed.
 
-Lemma R4_timer_fire ext extc hole s c : R4 ext extc hole s -> R4 ext extc hole (timer_fire s c).
+Lemma R4_timer_fire ext extc hole s c : R4 (c :: ext) extc hole s -> R4 ext extc hole (timer_fire s c).
 Proof.
   intros (N & C & I & G). unfold timer_fire.
   set (f := fun x => c_set_inflight true (c_set_start (now s) (c_set_timer TIdle x))).
@@ -566,16 +566,79 @@ Proof.
     destruct (Nat.eq_dec c c') as [->|Ne]; [left; apply in_app_iff; right; left; reflexivity|].
     destruct (I c' (conj L F)) as [X|[X|[X|[X|[X|[X|X]]]]]]; auto 10.
     + left. apply in_app_iff; auto.
+    + destruct X as [X|X]; [congruence|auto 10].
     + right; right; right; right; right; left. unfold armed in *.
       change (getc (set_inflight s1 (inflight s ++ [c])) c') with (getc s1 c'). unfold s1.
       rewrite getc_upd_c. destruct (Nat.eqb_spec c c'); [congruence|]. exact X.
 Qed.
 
-Lemma R_run_timers ext extc hole s : R ext extc hole s -> R ext extc hole (run_timers s).
+Lemma R4_ext_incl ext ext' extc hole s :
+  (forall c, In c ext -> In c ext') -> R4 ext extc hole s -> R4 ext' extc hole s.
 Proof.
-  unfold run_timers. generalize (due_from 0 (cs s) (now s)). intros l. revert s.
-  induction l as [|k l IH]; intros s H; cbn [fold_left]; auto.
-  apply IH. destruct H as [S H]. split; [apply SI_timer_fire; auto|apply R4_timer_fire; auto].
+  intros Inc (N & C & I & G). split; [exact N|]. split; [exact C|]. split; [|exact G].
+  intros c L. destruct (I c L) as [X|[X|[X|[X|[X|[X|X]]]]]]; unfold J; auto 10.
+Qed.
+
+(* the interval timer goes from the heap to the ready queue of the running pass *)
+Lemma R4_ready ext extc hole s c :
+  R4 ext extc hole s -> R4 (c :: ext) extc hole (upd_c s c (c_set_timer TReady)).
+Proof.
+  intros (N & C & I & G).
+  assert (Gf : forall c', c_freed (getc (upd_c s c (c_set_timer TReady)) c') = c_freed (getc s c')).
+  { intros c'. rewrite getc_upd_c. destruct (Nat.eqb c c' && Nat.ltb c (length (cs s))); auto. }
+  split; [exact N|]. split; [|split; [|exact G]].
+  - intros h c' I'. rewrite Gf. apply (C h c' I').
+  - intros c' [L F]. rewrite len_cs_upd_c in L. rewrite Gf in F. unfold J.
+    destruct (Nat.eq_dec c c') as [->|Ne]; [right; right; left; left; reflexivity|].
+    destruct (I c' (conj L F)) as [X|[X|[X|[X|[X|[X|X]]]]]]; auto 10.
+    + right; right; left. right. exact X.
+    + right; right; right; right; right; left. unfold armed in *. rewrite getc_upd_c.
+      destruct (Nat.eqb_spec c c'); [congruence|]. exact X.
+Qed.
+
+Definition ctxs_of (l : list ritem) : list nat :=
+  flat_map (fun it => match it with RCtx c => [c] | RUser _ => [] end) l.
+
+Lemma R_collect s items : R [] [] None s -> R (ctxs_of items) [] None (collect s items).
+Proof.
+  intros [S H]. split.
+  - apply (collect_inv SI); auto.
+    + intros s0 c H0. apply SI_upd_c; auto. cbn. discriminate.
+    + intros s0 l H0. eapply SI_same; [| |exact H0]; reflexivity.
+  - unfold collect.
+    assert (X : forall l s0 ext, R4 ext [] None s0 ->
+              R4 (rev (ctxs_of l) ++ ext) [] None
+                 (fold_left (fun s it => match it with
+                                          | RCtx c => upd_c s c (c_set_timer TReady)
+                                          | RUser _ => s end) l s0)).
+    { induction l as [|[c|id] l IH]; intros s0 ext H0; cbn [fold_left ctxs_of flat_map rev app]; auto.
+      - pose proof (IH _ _ (R4_ready ext [] None s0 c H0)) as Y.
+        eapply R4_ext_incl; [|exact Y]. intros c' I. fold (ctxs_of l) in *.
+        rewrite !in_app_iff in *. cbn in *. rewrite in_app_iff. cbn. tauto.
+      - apply IH. exact H0. }
+    pose proof (X items s [] H) as Y. rewrite app_nil_r in Y.
+    assert (Z : R4 (ctxs_of items) [] None
+                   (fold_left (fun s it => match it with
+                                          | RCtx c => upd_c s c (c_set_timer TReady)
+                                          | RUser _ => s end) items s)).
+    { eapply R4_ext_incl; [|exact Y]. intros c I. apply in_rev in I. exact I. }
+    destruct items; [exact Z|]. eapply R4_same; [| | | | |exact Z]; reflexivity.
+Qed.
+
+Lemma R_fire beh l : forall s cnt,
+  R (ctxs_of l) [] None s -> R [] [] None (fst (fst (fire_ready beh l s cnt))).
+Proof.
+  induction l as [|[c|id] l IH]; intros s cnt H; cbn [fire_ready]; auto.
+  - apply IH. destruct H as [S H]. split; [apply SI_timer_fire; auto|].
+    apply R4_timer_fire. exact H.
+  - pose proof (R_apis (ctxs_of l) [] None (beh cnt) s H) as X.
+    destruct (apis s (beh cnt)) as [s1 e1]. cbn [fst] in X.
+    pose proof (IH s1 (S cnt) X) as Y. destruct (fire_ready beh l s1 (S cnt)) as [[s2 e2] n2]. exact Y.
+Qed.
+
+Lemma R_run_timers beh s cnt : R [] [] None s -> R [] [] None (fst (fst (run_timers beh s cnt))).
+Proof.
+  intros H. unfold run_timers. apply R_fire. apply R_collect. exact H.
 Qed.
 
 Lemma R_release s res : R [] [] None s -> R [] [] None (fst (release s res)).
